@@ -672,6 +672,36 @@ theorem run_bufread2 {g : Cfg} {n k : Nat} (ok : BR2OK g n k) {Z : Bytes}
             exact q2 x hx⟩⟩) (fun _ _ h => h))
     em evs0 c n0 fuel (Or.inl (Or.inl hst)) hem hev0 hsegs hf hlen
 
+/-- `run_bufread2` without the size hypothesis (`run_stages3'`). -/
+theorem run_bufread2' {g : Cfg} {n k : Nat} (ok : BR2OK g n k) {Z : Bytes}
+    (hns : NoStuckW g.cap g.mc (g.U ++ Z))
+    (hNF : ∀ F x, F ++ x ++ Z = g.U ++ Z → (run .header F g.mc).st.isFinal = false)
+    (em : EndMode) (evs0 : List String) (c : Conn) (n0 fuel : Nat) (hst : FStage g c)
+    (hem : c.env.tr.endMode = em) (hev0 : ∀ s ∈ evs0, s ∈ c.env.tr.events)
+    (hsegs : c.env.segs = []) (hf : ans c.env.tr + 1 ≤ fuel) :
+    ∃ c'' fin, runTask fuel c n0 none = (c'', fin) ∧
+      (GEnd g.cap g.mc Z g.more (g.hs0 + 1)
+          (fun i : Bytes × Bytes × List Bytes × Bytes => g.p.flags.toNat % 2 = 1 ∧ i.1 ++ i.2.1 = g.Ob ∧
+            g.content = taken k i.2.2.1 ++ i.2.2.2)
+          (fun _ => g.U ++ Z) (fun i => g.Lb i.1 i.2.1)
+          (fun i => hsEvent g.p.request :: rEvent i.2.2.2 :: i.2.2.1.map fEvent) em evs0 (ans c.env.tr) c'' fin ∨
+       (fin = "RET" ∧ FQ g (Q1 g k) c'' ∧ c''.env.tr.endMode = em ∧ (∀ s ∈ evs0, s ∈ c''.env.tr.events))) :=
+  run_stages3' (cap24 g) (fun _ _ => hns) (fun _ _ => hNF)
+    (fun _ _ h => SQ.cong (q1_mono g k) (fun c c' h a b d e f => S01.cong c c' h a b d e f) h)
+    (fun _ h => (s1q_poll ok h).imp (fun _ _ h => h) (fun c1 _ h => by
+      obtain ⟨O1, O2, hO, ⟨shown, acc, q1, q2, q3⟩, haf⟩ := h
+      obtain ⟨raw, hph, hw, hraw⟩ := haf.ph
+      exact ⟨(O1, O2, shown, acc), ⟨haf.keep, hO, q1⟩,
+        Or.inr ⟨raw, hph, by rw [hw], hraw, haf.log, haf.ben, haf.stop⟩,
+        ⟨haf.sc, haf.mtx, haf.ev.1, fun s hs => by
+          rcases List.mem_cons.1 hs with rfl | hs
+          · exact haf.ev.2
+          rcases List.mem_cons.1 hs with rfl | hs
+          · exact q3
+          · obtain ⟨x, hx, rfl⟩ := List.mem_map.1 hs
+            exact q2 x hx⟩⟩) (fun _ _ h => h))
+    em evs0 c n0 fuel (Or.inl (Or.inl hst)) hem hev0 hsegs hf
+
 /-! ## Variant 2: consume part of the input, return -/
 
 /-- **The rounds of one poll**, general form, with the lock: after a `fill_buf` that returned, the lock is free. -/
@@ -1172,5 +1202,33 @@ theorem run_bufread3 {g : Cfg} {n k : Nat} (ok : BR3OK g n k) {Z : Bytes}
           · obtain ⟨x, hx, rfl⟩ := List.mem_map.1 hs
             exact q2 x hx⟩⟩) (fun _ _ h => h))
     em evs0 c n0 fuel (Or.inl hst) hem hev0 hsegs hf hlen
+
+/-- `run_bufread3` without the size hypothesis (`run_stages3'`). -/
+theorem run_bufread3' {g : Cfg} {n k : Nat} (ok : BR3OK g n k) {Z : Bytes}
+    (hns : ∀ s1 s2, g.R = s1 ++ s2 → NoStuckW g.cap g.mc (serAll s2 ++ Z))
+    (hNF : ∀ s1 s2, g.R = s1 ++ s2 → ∀ F x, F ++ x ++ Z = serAll s2 ++ Z → (run .header F g.mc).st.isFinal = false)
+    (em : EndMode) (evs0 : List String) (c : Conn) (n0 fuel : Nat) (hst : FStage g c)
+    (hem : c.env.tr.endMode = em) (hev0 : ∀ s ∈ evs0, s ∈ c.env.tr.events)
+    (hsegs : c.env.segs = []) (hf : ans c.env.tr + 1 ≤ fuel) :
+    ∃ c'' fin, runTask fuel c n0 none = (c'', fin) ∧
+      (GEnd g.cap g.mc Z g.more (g.hs0 + 1)
+          (fun i : List Rec × List Rec × List Bytes => g.R = i.1 ++ i.2.1 ∧ taken k i.2.2 <+: g.content ∧
+            g.p.flags.toNat % 2 = 1)
+          (fun i => serAll i.2.1 ++ Z) (fun i => (gC g i.1 i.2.1).LU)
+          (fun i => hsEvent g.p.request :: i.2.2.map fEvent) em evs0 (ans c.env.tr) c'' fin ∨
+       (fin = "RET" ∧ F3b g (Q2 g k) c'' ∧ c''.env.tr.endMode = em ∧ (∀ s ∈ evs0, s ∈ c''.env.tr.events))) :=
+  run_stages3' (cap24 g) (fun i hi => hns i.1 i.2.1 hi.1) (fun i hi => hNF i.1 i.2.1 hi.1)
+    (fun _ _ h => S3b.cong (q2_mono g k) h)
+    (fun _ h => (s3b_poll ok h).imp (fun _ _ h => h) (fun c1 _ h => by
+      obtain ⟨s1, s2, hsp, ⟨shown, q1, q2⟩, haf⟩ := h
+      obtain ⟨raw, hph, hw, hraw⟩ := haf.ph
+      exact ⟨(s1, s2, shown), ⟨hsp, q1, haf.keep⟩,
+        Or.inr ⟨raw, hph, by rw [hw]; rfl, hraw, haf.log, haf.ben, haf.stop⟩,
+        ⟨haf.sc, haf.mtx, haf.ev.1, fun s hs => by
+          rcases List.mem_cons.1 hs with rfl | hs
+          · exact haf.ev.2
+          · obtain ⟨x, hx, rfl⟩ := List.mem_map.1 hs
+            exact q2 x hx⟩⟩) (fun _ _ h => h))
+    em evs0 c n0 fuel (Or.inl hst) hem hev0 hsegs hf
 
 end Fcgi.E2E
